@@ -117,6 +117,32 @@ pub fn dispatch(op: &str, a: &[String]) -> String {
             comrak::html::escape_href(&mut o, &arg(0)).unwrap();
             ok(&o)
         }
+        // the `Context::escape` / `Context::escape_href` convenience wrappers, reached the only way the public API
+        // allows: from a custom formatter (the bytes travel in the user data)
+        "ctx_escape" | "ctx_escape_href" => {
+            fn f<'a>(
+                ctx: &mut comrak::html::Context<(Vec<u8>, bool)>,
+                node: &'a comrak::nodes::AstNode<'a>,
+                entering: bool,
+            ) -> std::io::Result<comrak::html::ChildRendering> {
+                if entering && matches!(node.data.borrow().value, comrak::nodes::NodeValue::Document) {
+                    let (bytes, href) = ctx.user.clone();
+                    if href {
+                        ctx.escape_href(&bytes)?;
+                    } else {
+                        ctx.escape(&bytes)?;
+                    }
+                }
+                Ok(comrak::html::ChildRendering::Skip)
+            }
+            let arena = comrak::Arena::new();
+            let o = comrak::Options::default();
+            let root = comrak::parse_document(&arena, "", &o);
+            let mut out = vec![];
+            let plugins = comrak::Plugins::default();
+            comrak::html::format_document_with_formatter(root, &o, &mut out, &plugins, f, (arg(0), op == "ctx_escape_href")).unwrap();
+            ok(&out)
+        }
         "write_opening_tag" => {
             // tag and attributes must be str; the caller only sends valid UTF-8
             let tag = String::from_utf8(arg(0)).unwrap();
